@@ -290,7 +290,7 @@ Lemma target_inside_or_noop_p : forall s x, ext_ok x = true -> zip_inside x = tr
   target_inside x = true \/ fst (step s x) = s.
 Proof.
   intros s x He Hz.
-  destruct x as [id fr ext c0 | m ids fr ext src | ids a | ids rel | members z c0 | ids | | ids | ids | l' c'];
+  destruct x as [id fr ext c0 | m ids fr ext src | ids a | ids rel | members z c0 | ids | | ids | ids | l' c' | rids];
     simpl in He, Hz; try (left; reflexivity).
   - destruct fr as [p| |]; [| left; reflexivity | left; reflexivity].
     destruct (refuse_location true p) eqn:R.
@@ -306,16 +306,16 @@ Qed.
 Fixpoint guarded2 (s : state) (h : list op) : bool :=
   match h with
   | [] => true
-  | x :: r => sharing_visible s && negb (reingest s x) && ext_ok x && zip_inside x && recs_inside s && put_coherent x
-              && guarded2 (fst (step s x)) r
+  | x :: r => sharing_visible s && negb (reingest s x) && ext_ok x && zip_inside x && put_coherent x
+              && live_trash_disjoint s && guarded2 (fst (step s x)) r
   end.
 
 Lemma step_outside_frame2_p : forall s x l,
-  recs_inside s = true -> ext_ok x = true -> zip_inside x = true -> put_coherent x = true ->
+  ext_ok x = true -> zip_inside x = true -> put_coherent x = true ->
   inside l = false -> touches_env s x l = false ->
   fget (fs (fst (step s x))) l = fget (fs s) l.
 Proof.
-  intros s x l Hri He Hz Hpc Hl Henv.
+  intros s x l He Hz Hpc Hl Henv.
   destruct (target_inside_or_noop_p s x He Hz) as [Hti | Hno].
   - apply step_outside_frame_p; assumption.
   - rewrite Hno. reflexivity.
@@ -323,11 +323,12 @@ Qed.
 
 Lemma step_deletes_unreferenced2_p : forall s x l c,
   sharing_visible s = true -> reingest s x = false -> ext_ok x = true -> zip_inside x = true -> put_coherent x = true ->
+  live_trash_disjoint s = true ->
   touches_env s x l = false ->
   fget (fs s) l = Some c -> fget (fs (fst (step s x))) l = None ->
   referenced (fst (step s x)) l = false.
 Proof.
-  intros s x l c Hvis Hre He Hz Hpc Henv Hf Hd.
+  intros s x l c Hvis Hre He Hz Hpc Hdis Henv Hf Hd.
   destruct (target_inside_or_noop_p s x He Hz) as [Hti | Hno].
   - apply (step_deletes_unreferenced_p s x l c); assumption.
   - rewrite Hno in Hd. rewrite Hf in Hd. discriminate.
